@@ -1,7 +1,7 @@
 """T14 -- engine self-test for sequences of strings (prefix-join measure, append, iterators, generator
 summaries).  ok_* must verify, bad_* must be refuted.  Not a property of the repository."""
-from pyvc.api import Module, Int, Nat, Bool, Str, Opt, ListOf, IterOf, FixedList, OneOf, Inst
-from contracts.common import implies, iff, forall_range, exists_range, prefix_join, join_of, yielded, is_find, peek
+from pyvc.api import Module, Int, Nat, Bool, Str, Opt, ListOf, MListOf, IterOf, FixedList, OneOf, Inst
+from contracts.common import implies, iff, forall_range, exists_range, prefix_join, join_of, is_find, peek
 
 M = Module('T14')
 P = 'contracts.T14_texts'
@@ -35,7 +35,7 @@ M.contract(P + ':ok_collect', params=dict(xs=ListOf(Str)),
 M.loop(P + ':ok_collect', 0,
        invariant=lambda _i, xs, out, n: join_of(out) == prefix_join(xs, _i) and n == len(prefix_join(xs, _i))
                                         and len(out) == _i,
-       modifies=dict(out=ListOf(Str), n=Int, x='local'))
+       modifies=dict(out=MListOf(Str), n=Int, x='local'))
 
 
 def bad_collect(xs):
@@ -50,20 +50,22 @@ M.contract(P + ':bad_collect', params=dict(xs=ListOf(Str)), returns=Str,
            ensures={'join': lambda xs, result: result == join_of(xs)}, raises_only=())
 M.loop(P + ':bad_collect', 0,
        invariant=lambda _i, xs, out: join_of(out) == prefix_join(xs, _i),
-       modifies=dict(out=ListOf(Str), x='local'))
+       modifies=dict(out=MListOf(Str), x='local'))
 
 
 def ok_gen_copy(lines):
     for line in lines:
-        yield line + '!'
+        yield line
     yield 'end'
 
 
-M.contract(P + ':ok_gen_copy', params=dict(lines=IterOf(Str)), old=lambda lines: peek(lines),
-           ensures={'count': lambda old, result: len(yielded(result)) == len(old) + 1,
-                    'last': lambda result: yielded(result)[-1] == 'end'}, raises_only=())
-M.loop(P + ':ok_gen_copy', 0, invariant=lambda _i, _yielded: len(_yielded) == _i,
-       modifies=dict(_yielded=ListOf(Str), line='local'))
+M.contract(P + ':ok_gen_copy', params=dict(lines=IterOf(Str)), old=lambda lines: peek(lines), yields=ListOf(Str),
+           ensures={'count': lambda old, yielded: len(yielded) == len(old) + 1,
+                    'last': lambda yielded: yielded[len(yielded) - 1] == 'end',
+                    'join': lambda old, yielded: join_of(yielded) == join_of(old) + 'end'}, raises_only=())
+M.loop(P + ':ok_gen_copy', 0,
+       invariant=lambda _i, _xs, yielded: len(yielded) == _i and join_of(yielded) == prefix_join(_xs, _i),
+       modifies=dict(yielded='len', line='local'))
 
 EXPECTED_REFUTED = {
     P + ':bad_collect : loop#0 invariant[preserved]',
